@@ -5,7 +5,9 @@ package c18
 //   docs/*.md, and the validator's own error texts as the statement of intent
 //   ("server port must be between 1 and 65535", "... must be non-negative", "... must be positive",
 //    "active health check timeout must be less than interval", "max_idle must be less than or equal
-//    to max_active", "TLS enabled but cert file not specified", "no backend servers configured", ...).
+//    to max_active", "TLS enabled but cert file not specified", "no backend servers configured", ...;
+//    sample-file comment on circuit_breaker.max_requests: "must be >= success_threshold; defaults to
+//    success_threshold when omitted").
 // It evaluates the Model (what the operator wrote), never the parsed config.Config, and never calls
 // Validate.
 //
